@@ -2,6 +2,7 @@
 from __future__ import annotations
 
 import ast
+import functools as _functools
 
 from sa.astx import call_attr, call_name, dotted, src, walk_local
 from sa.selftest import Mutant, Silent
@@ -35,6 +36,7 @@ EXPLANATION = (
 )
 RULE_KINDS = {
     "*": "structural",                          # provenance of every path value at every sink, footprint table, guard dominance in toSegments, loop-shape rule for descendant()
+    "normalise/evaluated": "bounded",           # second layer under normalise/*: toSegments interpreted on 1548 (cwd, path) pairs and compared with the clause
     "shell/descendant-evaluated": "bounded",    # second layer under shell/descendant-is-child-per-segment: descendant() interpreted on segment lists of length 0..3
 }
 ASSUMPTIONS = [
@@ -206,8 +208,14 @@ def _s_tosegments(ctx, S):
     okd = bool(ds) and all(d is not None for d in ds) and \
         all((isinstance(d, ast.List) and not d.elts) or src(d) in (f"{cwd}[:]", f"list({cwd})", f"{cwd}.copy()", f"{cwd}[0:]") for d in starts)
     ctx.check(okd, "normalise/starts-from-root-or-cwd", q, f"the segment stack does not start as [] or a copy of cwd: {[src(d) for d in starts]}")
+    for n in g.ids(lambda n: n.kind == "stmt" and isinstance(n.ast, ast.Raise)):
+        ctx.check("InvalidPath" in src(g.node(n).ast), "normalise/rejects-with-InvalidPath", ctx.construct(q, g.node(n).ast), "a rejected path raises something other than InvalidPath "
+                  "(every ftp_* handler converts exactly InvalidPath)")
     loops = [n for n in g.nodes if n.kind == "for" and g.reachable(n.id)]
-    ctx.need(len(loops) == 1, "single loop in toSegments")
+    if len(loops) != 1 or any(isinstance(n, ast.While) for n in walk_local(f)):
+        # not a walk over <path>.split('/') (e.g. a hand-written scanner): the per-component clauses are not read from this shape
+        ctx.note("normalise/* per-component clauses: toSegments is not a single for-loop over the split path; left to the bounded rule normalise/evaluated")
+        return
     lp = loops[0]
     var = src(lp.ast.target)
     # the iterable: <path>.split("/") itself, or a comprehension / generator over it that only FILTERS components (its element is its own variable);
@@ -259,9 +267,55 @@ def _s_tosegments(ctx, S):
                   "normalise/pop-only-for-dotdot-on-nonempty", where, "the stack is popped for something other than '..' on a non-empty stack")
         ctx.check(not c.args, "normalise/pop-only-for-dotdot-on-nonempty", where + " | last element", "pop() does not remove the last segment")
     ctx.check(bool(pops), "normalise/dotdot-pops", q, "'..' does not remove the previous segment")
-    for n in g.ids(lambda n: n.kind == "stmt" and isinstance(n.ast, ast.Raise)):
-        ctx.check("InvalidPath" in src(g.node(n).ast), "normalise/rejects-with-InvalidPath", ctx.construct(q, g.node(n).ast), "a rejected path raises something other than InvalidPath "
-                  "(every ftp_* handler converts exactly InvalidPath)")
+
+
+def _reference_segments(cwd, path):
+    """what toSegments has to compute, written from the clause: ("ok", segments) or ("InvalidPath",)"""
+    segs = [] if path.startswith("/") else list(cwd)
+    for s in path.split("/"):
+        if s in (".", ""):
+            continue
+        if s == "..":
+            if not segs:
+                return ("InvalidPath",)
+            segs.pop()
+        elif "\0" in s:
+            return ("InvalidPath",)
+        else:
+            segs.append(s)
+    return ("ok", segs)
+
+
+def _s_tosegments_evaluated(ctx, S):
+    # second layer, independent of how the scan is written: toSegments is interpreted on every path of up to three components drawn from
+    # {a, ., .., <empty>, a<NUL>, .a}, absolute and relative, under three working directories, and compared with the clause
+    import itertools
+    f = ctx.func(FTPM, "toSegments")
+    q = QF + ".toSegments"
+    cwd_p, path_p = params(f)[:2]
+    comps = ["a", ".", "..", "", "a\0", ".a"]
+    bad, n = None, 0
+    for k in (1, 2, 3):
+        for parts in itertools.product(comps, repeat=k):
+            for lead in ("", "/"):
+                path = lead + "/".join(parts)
+                for cwd in ([], ["w"], ["w", "v"]):
+                    given = list(cwd)
+                    try:
+                        got = ("ok", mini_call(f, {cwd_p: given, path_p: path}, budget=3000))
+                    except MiniStop as e:
+                        raise AnalysisError(f"toSegments not evaluable: {e}")
+                    except Exception as e:  # noqa: BLE001 - the interpreted raise
+                        got = (str(e),)
+                    n += 1
+                    want = _reference_segments(cwd, path)
+                    if got[0] == "ok" and not isinstance(got[1], list):
+                        got = ("ok", got[1])
+                    if (got != want or given != cwd) and bad is None:
+                        bad = (cwd, path, want, got if given == cwd else ("the caller's working directory list was modified", given))
+    ctx.check(bad is None, "normalise/evaluated", q,
+              "toSegments(%r, %r) should give %r but gives %r (a '..' / empty / NUL component reaches the shell, or the stack is popped above the root)" % bad if bad else "",
+              detail=f"bounded: {n} (cwd, path) pairs - paths of 1..3 components from {{a, ., .., '', a<NUL>, .a}}, absolute and relative, 3 working directories")
 
 
 def _s_invalid_path(ctx, S):
@@ -296,6 +350,12 @@ def _s_path(ctx, S):
               "_path is not `return self.filesystemRoot.descendant(segments)`: segments are joined to the root without FilePath.child's containment check")
 
 
+class _Functools:
+    """the one functools name a fold over the segments uses, for the interpreter"""
+    _mini_symbolic = True
+    reduce = staticmethod(_functools.reduce)
+
+
 class _SymPath:
     """symbolic FilePath for the evaluation of descendant(): remembers which children were taken through child()"""
     _mini_symbolic = True
@@ -328,7 +388,7 @@ def _s_descendant(ctx, S):
         for segs in ([], ["a"], ["a", "b"], ["x", "..", "y"]):
             root = _SymPath()
             for container in (list(segs), tuple(segs)):
-                r = mini_call(fd, {ps[0]: root, ps[1]: container})
+                r = mini_call(fd, {ps[0]: root, ps[1]: container}, builtins={"reduce": _functools.reduce, "functools": _Functools()})
                 ok = isinstance(r, _SymPath) and r.trail == tuple(segs) and set(r.via) <= {"child"} and (segs or r is root)
                 if not ok and bad is None:
                     bad = (segs, getattr(r, "trail", r), getattr(r, "via", ()))
@@ -370,6 +430,26 @@ def _s_descendant(ctx, S):
                     not any(isinstance(x, (ast.Break, ast.Continue)) for x in walk_local(whiles[0]))
                 verdict = exits_ok and [src(d) for d in inits] == [ps[0]] and len(steps) == 1 and src(steps[0].func.value) == acc and [src(a) for a in steps[0].args] == [item] \
                     and not steps[0].keywords and any(isinstance(b, ast.Assign) and b.value is steps[0] for b in whiles[0].body)
+    if verdict is None and len(rets) == 1 and isinstance(rets[0], ast.Return) and isinstance(rets[0].value, ast.Call) and \
+            not any(isinstance(n, (ast.For, ast.While)) for n in walk_local(fd)):
+        # third idiom, a fold: return reduce(<step>, <segments>, self) with <step> = lambda a, s: a.child(s) (or a local def saying the same)
+        fold = resolve(rets[0].value, defs)
+        if isinstance(fold, ast.Call) and call_name(fold) in ("reduce", "functools.reduce") and len(fold.args) == 3 and not fold.keywords:
+            step, seq, init = fold.args
+            if isinstance(seq, ast.Call) and call_name(seq) in ("iter", "list", "tuple") and len(seq.args) == 1 and not seq.keywords:
+                seq = seq.args[0]
+            sp, sv = None, None
+            if isinstance(step, ast.Lambda):
+                sp, sv = [a.arg for a in step.args.args], step.body
+            elif isinstance(step, ast.Name):
+                ld = [n for n in walk_local(fd) if isinstance(n, ast.FunctionDef) and n is not fd and n.name == step.id]
+                body_ = [b for b in ld[0].body if not (isinstance(b, ast.Expr) and isinstance(b.value, ast.Constant))] if len(ld) == 1 else []
+                if len(ld) == 1 and not ld[0].decorator_list and len(body_) == 1 and isinstance(body_[0], ast.Return) and body_[0].value is not None and \
+                        sum(1 for k, v in defs.items() if k == step.id) <= 1:
+                    sp, sv = [a.arg for a in ld[0].args.args], body_[0].value
+            if sp is not None and len(sp) == 2:
+                verdict = src(seq) == seg_p and src(init) == ps[0] and isinstance(sv, ast.Call) and call_attr(sv) == "child" and not sv.keywords and \
+                    src(sv.func.value) == sp[0] and [src(a) for a in sv.args] == [sp[1]]
     if verdict is None:
         ctx.note("shell/descendant-is-child-per-segment: loop shape not recognised, clause left to the bounded rule shell/descendant-evaluated")
     else:
@@ -435,13 +515,13 @@ def _confined(m, mname):
         seen_row = False
         for d in ds_:
             rows = None
-            if isinstance(d, (ast.List, ast.Tuple)) and (not d.elts or all(isinstance(e, ast.Tuple) for e in d.elts)) and \
-                    not (isinstance(d, ast.Tuple) and len(d.elts) == k and any(isinstance(getattr(d, "_parent", None), ast.Call) for _ in [0])):
+            par_ = getattr(d, "_parent", None)
+            if isinstance(d, ast.Tuple) and isinstance(par_, ast.Call) and call_attr(par_) in ("append", "add", "insert") and d in par_.args:
+                rows = [d]          # <rows>.append((a, b)): the argument is one row
+            elif isinstance(d, (ast.List, ast.Tuple)) and all(isinstance(e, ast.Tuple) for e in d.elts):
                 rows = list(d.elts)
             elif isinstance(d, (ast.ListComp, ast.GeneratorExp)) and isinstance(d.elt, ast.Tuple):
                 rows = [d.elt]
-            if isinstance(d, ast.Tuple) and isinstance(getattr(d, "_parent", None), ast.Call) and call_attr(d._parent) in ("append", "add", "insert"):
-                rows = [d]          # <rows>.append((a, b)): the argument is one row
             if rows is None or any(len(r.elts) != k for r in rows):
                 return None
             for r in rows:
@@ -779,7 +859,7 @@ def _s_body(ctx, S):
 def check(ctx):
     normalise(ctx, {FTPM: ["_path", "_statNode", "_encodeName", "_isGlobbingExpression"], FPM: []},
               scopes={FTPM: ["FTP", "FTPAnonymousShell", "FTPShell", "toSegments"], FPM: ["AbstractFilePath.descendant"]})
-    run_sections(ctx, [("protocol", _s_protocol), ("working-directory", _s_cwd), ("toSegments", _s_tosegments), ("invalid-path", _s_invalid_path), ("_path", _s_path),
+    run_sections(ctx, [("protocol", _s_protocol), ("working-directory", _s_cwd), ("toSegments", _s_tosegments), ("toSegments-evaluated", _s_tosegments_evaluated), ("invalid-path", _s_invalid_path), ("_path", _s_path),
                        ("descendant", _s_descendant), ("_path-only", _s_path_only), ("shell-sinks", _s_sinks), ("shell-footprints", _s_footprints), ("path-coercion", _s_coercion), ("body-entered", _s_body)])
 
 
